@@ -3,6 +3,7 @@ package main
 // gossip traces in core mode, under several schedulers.
 
 import (
+	"fmt"
 	"time"
 )
 
@@ -112,6 +113,18 @@ var schedNames = []string{"random", "laggard", "partition", "silent", "ring"}
 
 func runGossip(seed int64, out string, traces, n, steps int, schedName, store string, cache int, dir string, txp float64, full int) *Summary {
 	s := &Summary{Mode: "gossip"}
+	faults := false
+	if len(schedName) > 7 && schedName[:7] == "faults-" {
+		faults = true
+		schedName = schedName[7:]
+	}
+	nfaults := 0
+	lossy := false
+	if len(schedName) > 6 && schedName[:6] == "lossy-" {
+		lossy = true
+		schedName = schedName[6:]
+	}
+	nmangled := 0
 	var w *World
 	for t := 0; t < traces; t++ {
 		nn := n
@@ -125,6 +138,7 @@ func runGossip(seed int64, out string, traces, n, steps int, schedName, store st
 			w2.out, w2.outF, w2.seq, w2.lines = w.out, w.outF, 0, w.lines
 		}
 		w = w2
+		w.faults = faults
 		w.traceNo = t + 1
 		w.tsBase = time.Now().Unix()
 		sn := schedName
@@ -132,13 +146,34 @@ func runGossip(seed int64, out string, traces, n, steps int, schedName, store st
 			sn = schedNames[t%len(schedNames)]
 		}
 		cn := NewCoreNet(w, CoreOpts{N: nn, Store: store, Cache: cache, Dir: dir})
-		cn.EmitInit(map[string]interface{}{"sched": sn, "seed": seed*1000 + int64(t)})
+		if lossy {
+			cn.mangle = 0.2
+		}
+		cn.EmitInit(map[string]interface{}{"sched": sn, "seed": seed*1000 + int64(t), "lossy": lossy, "faults": faults})
 		sc := makeSched(w, sn, nn, steps)
+		outage := map[int]int{}
 		for k := 0; k < steps; k++ {
 			if w.rng.Float64() < txp {
 				tgt := cn.nodes[w.rng.Intn(len(cn.nodes))]
 				id, payload := w.RandTx()
+				if lossy {
+					switch w.rng.Intn(6) {
+					case 0: // empty transaction
+						id, payload = w.NewTx([]byte{})
+					case 1: // duplicate content
+						if len(w.txBytes) > 0 {
+							id = fmt.Sprintf("t%d", 1+w.rng.Intn(len(w.txBytes)))
+							payload = w.txBytes[id]
+						}
+					case 2: // binary, non UTF-8
+						id, payload = w.NewTx([]byte{0xff, 0x00, 0xfe, byte(len(w.txBytes)), 0x80})
+					}
+				}
 				cn.Submit(tgt, id, payload)
+				if lossy && w.rng.Intn(4) == 0 { // burst
+					id2, p2 := w.RandTx()
+					cn.Submit(tgt, id2, p2)
+				}
 			}
 			if nn == 1 {
 				cn.MonologueStep(cn.nodes[0], full > 0 && k%full == 0)
@@ -148,12 +183,48 @@ func runGossip(seed int64, out string, traces, n, steps int, schedName, store st
 			if !ok {
 				continue
 			}
+			if faults && cn.byNum[a].fs != nil {
+				fs := cn.byNum[a].fs
+				switch {
+				case outage[a] > 1:
+					// frame writes keep failing: decided rounds pile up in the pending queue
+					fs.ArmBurst("SetFrame")
+					outage[a]--
+					nfaults++
+				case outage[a] == 1:
+					// the outage is over; one more single failure hits the 1st..3rd
+					// write while the piled-up rounds are processed in one pass
+					// (frame writes: one per piled-up round, so the 2nd or 3rd
+					// write fails inside the pass that processes several rounds)
+					if w.rng.Intn(3) > 0 {
+						fs.Arm("SetFrame", 2+w.rng.Intn(2))
+					} else {
+						fs.Arm([]string{"SetFrame", "SetBlock", "AddConsensusEvent"}[w.rng.Intn(3)], 1+w.rng.Intn(3))
+					}
+					outage[a] = 0
+					nfaults++
+				case k > steps/5 && w.rng.Intn(9) == 0:
+					outage[a] = 6 + w.rng.Intn(9)
+				case k > steps/5 && w.rng.Intn(4) == 0:
+					m := faultMethods[w.rng.Intn(len(faultMethods))]
+					if w.rng.Intn(2) == 0 {
+						fs.ArmBurst(m) // outage of that write for the whole step
+					} else {
+						fs.Arm(m, 1+w.rng.Intn(4))
+					}
+					nfaults++
+				}
+			}
 			cn.SyncStep(cn.byNum[a], cn.byNum[b], limit, full > 0 && k%full == 0)
+			if faults && cn.byNum[a].fs != nil && cn.byNum[a].fs.burst {
+				cn.byNum[a].fs.Disarm()
+			}
 		}
 		s.Steps += cn.steps
 		s.Events += len(w.events)
 		s.Blocks += cn.blocks
 		s.Errors += cn.errs
+		nmangled += cn.mangled
 		if len(s.Samples) < 3 {
 			s.Samples = append(s.Samples, map[string]interface{}{"trace": t + 1, "n": nn, "sched": sn,
 				"events": len(w.events), "blocks_delivered": cn.blocks, "steps": cn.steps})
@@ -162,6 +233,7 @@ func runGossip(seed int64, out string, traces, n, steps int, schedName, store st
 	}
 	s.Traces = traces
 	s.Lines = w.lines
+	s.Extra = map[string]interface{}{"store_faults_armed": nfaults, "responses_mangled": nmangled}
 	w.CloseTrace()
 	return s
 }
